@@ -241,10 +241,22 @@ func statusBytes(e env) []byte {
 	}
 	st := &protocol.TunnelStatus{Status: protocol.TunnelStatusCode(e.status)}
 	if e.status != 0 {
-		st.Error = transport.ErrNoDirect.Error() // text must not matter, only the code
+		// the text must not matter, only the code: alternate between no text at all, the no-direct text
+		// and an unrelated text
+		statusTextCounter++
+		switch statusTextCounter % 3 {
+		case 0:
+			st.Error = ""
+		case 1:
+			st.Error = transport.ErrNoDirect.Error()
+		default:
+			st.Error = "remote refused"
+		}
 	}
 	return frame(st)
 }
+
+var statusTextCounter int
 
 // ---------- world ----------
 
